@@ -478,6 +478,7 @@ typedef struct {
   int             qdump;      /* qdump=1: log QSTATE */
   char           *qdump_last; /* last QSTATE text printed */
   int             lctrace;       /* lctrace=1: print LC events (sim_ev users, query ids) */
+  int             sockfuncs_mode; /* sockfuncs=: 0 ex (default), 1 nogsn, 2 legacy */
   /* alloc */
   int             alloc_report;
   size_t          opno;
@@ -1676,6 +1677,55 @@ static const struct ares_socket_functions_ex g_sockfuncs = {
   v_bind,
   v_if_nametoindex,
   v_if_indextoname
+};
+
+/* sockfuncs=nogsn: the same table without agetsockname */
+static const struct ares_socket_functions_ex g_sockfuncs_nogsn = {
+  1,
+  ARES_SOCKFUNC_FLAG_NONBLOCKING,
+  v_socket,
+  v_close,
+  v_setsockopt,
+  v_connect,
+  v_recvfrom,
+  v_sendto,
+  NULL,
+  v_bind,
+  v_if_nametoindex,
+  v_if_indextoname
+};
+
+/* sockfuncs=legacy: the deprecated ares_set_socket_functions() table (no setsockopt, bind,
+ * getsockname; the library treats the sockets as possibly blocking) */
+static int l_connect(ares_socket_t fd, const struct sockaddr *addr,
+                     ares_socklen_t addrlen, void *ud)
+{
+  return v_connect(fd, addr, addrlen, 0, ud);
+}
+
+static ares_ssize_t l_sendv(ares_socket_t fd, const struct iovec *vec, int n,
+                            void *ud)
+{
+  size_t         total = 0;
+  size_t         off   = 0;
+  int            i;
+  unsigned char *buf;
+  ares_ssize_t   rv;
+  for (i = 0; i < n; i++) {
+    total += vec[i].iov_len;
+  }
+  buf = xmalloc(total + 1);
+  for (i = 0; i < n; i++) {
+    memcpy(buf + off, vec[i].iov_base, vec[i].iov_len);
+    off += vec[i].iov_len;
+  }
+  rv = v_sendto(fd, buf, total, 0, NULL, 0, ud);
+  free(buf);
+  return rv;
+}
+
+static const struct ares_socket_functions g_sockfuncs_legacy = {
+  v_socket, v_close, l_connect, v_recvfrom, l_sendv
 };
 
 /* ------------------------------------------------------------------------- */
@@ -4462,6 +4512,18 @@ static void parse_config(char *cfgtext, cfg_t *c)
       G.tfo = v != 0;
       continue;
     }
+    if (strcmp(k, "sockfuncs") == 0) {
+      if (strcmp(val, "ex") == 0) {
+        G.sockfuncs_mode = 0;
+      } else if (strcmp(val, "nogsn") == 0) {
+        G.sockfuncs_mode = 1;
+      } else if (strcmp(val, "legacy") == 0) {
+        G.sockfuncs_mode = 2;
+      } else {
+        ev("BADCFG %s", k);
+      }
+      continue;
+    }
     if (strcmp(k, "qdump") == 0 && isnum) {
       G.qdump = v != 0;
       continue;
@@ -4643,7 +4705,13 @@ static void init_channel(const cfg_t *c)
     ev("INIT rc=%d", rc);
     return;
   }
-  rc = (int)ares_set_socket_functions_ex(G.channel, &g_sockfuncs, NULL);
+  if (G.sockfuncs_mode == 2) {
+    ares_set_socket_functions(G.channel, &g_sockfuncs_legacy, NULL);
+    rc = ARES_SUCCESS;
+  } else {
+    rc = (int)ares_set_socket_functions_ex(
+      G.channel, G.sockfuncs_mode == 1 ? &g_sockfuncs_nogsn : &g_sockfuncs, NULL);
+  }
   if (rc != ARES_SUCCESS) {
     ev("SETSOCKFUNCS rc=%d", rc);
   }
